@@ -38,6 +38,7 @@ class Address:
         if isinstance(address, self.__class__):
             self.wc = address.wc
             self.hash_part = address.hash_part
+            self.anycast = address.anycast
             return
         if self.is_hex(address):
             return
